@@ -115,6 +115,18 @@ pub struct Client<S, T> {
     extended_protocol_data_buffer: VecDeque<ExtendedProtocolData>,
 }
 
+/// Removes a client's entry from the client/server map when dropped.
+struct CancelEntry {
+    client_server_map: ClientServerMap,
+    key: (i32, i32),
+}
+
+impl Drop for CancelEntry {
+    fn drop(&mut self) {
+        self.client_server_map.lock().remove(&self.key);
+    }
+}
+
 /// Client entrypoint.
 pub async fn client_entrypoint(
     mut stream: TcpStream,
@@ -1140,6 +1152,14 @@ where
             let address = connection.1;
             let server = &mut *reference;
 
+            // Declared after `reference`, so dropped before it on every way out of this
+            // block (return, `?`, panic): our key stops mapping to the server before
+            // the server can be handed to another client.
+            let _cancel_entry = CancelEntry {
+                client_server_map: self.client_server_map.clone(),
+                key: (self.process_id, self.secret_key),
+            };
+
             // Server is assigned to the client in case the client wants to
             // cancel a query later.
             server.claim(self.process_id, self.secret_key);
@@ -2133,8 +2153,12 @@ where
 
 impl<S, T> Drop for Client<S, T> {
     fn drop(&mut self) {
-        let mut guard = self.client_server_map.lock();
-        guard.remove(&(self.process_id, self.secret_key));
+        // A cancel request carries the process id and secret key of the client it
+        // wants to cancel, that entry is not ours to remove.
+        if !self.cancel_mode {
+            let mut guard = self.client_server_map.lock();
+            guard.remove(&(self.process_id, self.secret_key));
+        }
 
         // Dirty shutdown
         // TODO: refactor, this is not the best way to handle state management.
